@@ -172,8 +172,13 @@ def check_add_slide(ctx, prs, layout, rng, label, lines, impl, metas):
     # placeholder with the same idx, else that of the FIRST master placeholder of the mapped type -- computed here from
     # the raw XML (not through the library's layout objects) and by the Lean model
     lay_rows = [(sp.ph_idx, key_of(sp)[0], xfrm_of(sp)) for sp in layout.shapes._spTree.iter_ph_elms()]
-    mas_rows = [(key_of(sp)[0], xfrm_of(sp)) for sp in layout.slide_master.shapes._spTree.iter_ph_elms()]
-    for ph in slide.placeholders:
+    try:
+        mas_rows = [(key_of(sp)[0], xfrm_of(sp)) for sp in layout.slide_master.shapes._spTree.iter_ph_elms()]
+    except KeyError:
+        # a corpus deck whose layout part has no slide-master relationship (a fragment used by the acceptance tests): nothing
+        # to inherit from above the layout; geometry that needs the master is not judged there
+        mas_rows = None
+    for ph in (slide.placeholders if mas_rows is not None else []):
         own = xfrm_of(ph.element)
         gotg = (ph.left, ph.top, ph.width, ph.height)
         for a, attr in enumerate(("left", "top", "width", "height")):
